@@ -444,4 +444,20 @@ SEGMENTS = {
         await_calls=["get_l1_entry", "get_l2_slice_slow"],
         rewrites=[(r"\.read\(\)\.await", ".kread()", 2)],
     ),
+    # ---- cache shrink and the dirty-range flush
+    "SC": dict(
+        parts=[
+            dict(fn="shrink_caches", start="FULL",
+                 sig="pub(crate) fn seg_sc_shrink(&self) -> Qcow2Result<()>",
+                 await_calls=["flush_meta"],
+                 rewrites=[(r"self\.refblock_cache\.shrink\(\)", "self.k_sc_shrink(KWhich::Rb)", 0),
+                           (r"self\.l2cache\.shrink\(\)", "self.k_sc_shrink(KWhich::L2)", 0),
+                           (r"self\.k_flush_meta\(", "self.k_sc_flush_meta(")]),
+            dict(fn="flush_cache", start="FULL",
+                 sig="pub(crate) fn seg_sc_flush_cache(&self, cache: &KDirtySet, start: usize, end: usize) -> Qcow2Result<bool>",
+                 await_calls=["flush_cache_entries"],
+                 rewrites=[(r"self\.k_flush_cache_entries\(", "self.k_sl_flush_cache_entries(")]),
+        ],
+        file="src/dev/cache.rs",
+    ),
 }
